@@ -158,6 +158,16 @@ def sumShifts (s : Series) : Nat → Series
   | 0 => []
   | n + 1 => Series.add (sumShifts s n) (Series.shift n s)
 
+/-- full hours of the event count 1, the last partial hour counts for its fraction -/
+def avgOccSeries (s : Series) (dh : Rat) : Series :=
+  let n := dh.floor.toNat
+  let rest := dh - (n : Rat)
+  let full := sumShifts s n
+  if rest > 0 then
+    (if n = 0 then Series.scale rest (Series.shift n s)
+     else Series.add full (Series.scale rest (Series.shift n s)))
+  else full
+
 def nbAvgHourlyOccurrences (starts : Val) (duration : Val) : M Val := do
   let dmag ← duration.magnitude
   match starts with
@@ -168,14 +178,7 @@ def nbAvgHourlyOccurrences (starts : Val) (duration : Val) : M Val := do
     let dh ← match duration with
       | .q d => (do let d' ← d.to U.hour; pure d'.mag)
       | _ => throw .type
-    let n := dh.floor.toNat
-    let rest := dh - (n : Rat)
-    let full := sumShifts st.vals n
-    let res := if rest > 0 then
-        (if n = 0 then Series.scale rest (Series.shift n st.vals)
-         else Series.add full (Series.scale rest (Series.shift n st.vals)))
-      else full
-    pure (.h ⟨res, st.unit⟩)
+    pure (.h ⟨avgOccSeries st.vals dh, st.unit⟩)
 
 /-! ## Usage journey, usage pattern -/
 
@@ -233,20 +236,27 @@ def jobPatterns (sp : Spec) (job : String) : M (List PatternS) :=
     let j ← lookup "journey" JourneyS.name sp.journeys p.journey
     pure ((← journeyJobs sp j).contains job))
 
-/-- `compute_hourly_occurrences_for_usage_pattern` -/
-def jobOccurrences (sp : Spec) (job : String) (p : PatternS) (utc : Val) : M Val := do
-  let j ← lookup "journey" JourneyS.name sp.journeys p.journey
-  let ss ← j.steps.mapM (fun s => lookup "step" StepS.name sp.steps s)
-  let (occ, _) ← ss.foldlM (fun (acc : Val × Val) s => do
-    let (occ, delay) := acc
+/-- accumulate the journey starts shifted by each delay (whole hours), from `EmptyExplainableObject` -/
+def occFold (utc : Val) (delays : List Int) : M Val :=
+  delays.foldlM (fun occ d => do occ.add (← utc.shiftBy d)) Val.empty
+
+/-- for each step in order and each occurrence of the job in it: `floor` of the time (in hours)
+spent in the preceding steps -/
+def jobDelays (ss : List StepS) (job : String) : M (List Int) := do
+  let (ds, _) ← ss.foldlM (fun (acc : List Int × Val) s => do
+    let (ds, delay) := acc
     let dh ← match delay with
       | .empty => pure (0 : Int)
       | .q d => (do let d' ← d.to U.hour; pure d'.mag.floor)
       | .h _ => throw .type
-    let occ ← s.jobs.foldlM (fun occ jn => do
-      if jn == job then occ.add (← utc.shiftBy dh) else pure occ) occ
-    pure (occ, ← delay.add s.time)) (Val.empty, Val.empty)
-  pure occ
+    pure (ds ++ (s.jobs.filter (· == job)).map (fun _ => dh), ← delay.add s.time)) (([] : List Int), Val.empty)
+  pure ds
+
+/-- `compute_hourly_occurrences_for_usage_pattern` -/
+def jobOccurrences (sp : Spec) (job : String) (p : PatternS) (utc : Val) : M Val := do
+  let j ← lookup "journey" JourneyS.name sp.journeys p.journey
+  let ss ← j.steps.mapM (fun s => lookup "step" StepS.name sp.steps s)
+  occFold utc (← jobDelays ss job)
 
 /-- `duration_in_full_hours`: `math.ceil(request_duration in hours)` -/
 def durationInFullHours (d : Val) : M Int :=
@@ -254,14 +264,18 @@ def durationInFullHours (d : Val) : M Int :=
   | .q x => do pure (← x.to U.hour).mag.ceil
   | _ => throw .type
 
+/-- spread `perHour` over `n` consecutive hours after each occurrence -/
+def dataFold (occ : Val) (perHour : Val) (n : Nat) : M Val :=
+  (List.range n).foldlM (fun (acc : Val) (k : Nat) => do
+    match occ with
+    | .empty => pure acc
+    | _ => acc.add (← (← occ.shiftBy (Int.ofNat k)).mul perHour)) Val.empty
+
 /-- `compute_hourly_data_exchange_for_usage_pattern` -/
 def jobDataExchange (occ : Val) (amount : Val) (requestDuration : Val) : M Val := do
   let dfh ← durationInFullHours requestDuration
   let perHour ← amount.div (.q ⟨(dfh : Rat), U.dimless⟩)
-  (List.range dfh.toNat).foldlM (fun (acc : Val) (k : Nat) => do
-    match occ with
-    | .empty => pure acc
-    | _ => acc.add (← (← occ.shiftBy (Int.ofNat k)).mul perHour)) Val.empty
+  dataFold occ perHour dfh.toNat
 
 structure JobOut where
   name : String
